@@ -21,6 +21,7 @@ server observations in event order and keeps, per stream, the set of states the 
 {live(conn), lingering(t0), forgotten}; every outcome a client sees has to be one the model allows (may), and a stream the
 model says must be alive / must be forgotten has to be present in / absent from the daemon's table at every housekeeping pass.
 """
+import gc
 import threading
 import uuid
 
@@ -546,6 +547,13 @@ class StreamWorld(World):
         ctx.probe(plan["servertype"])
         run = _Run.cur = {"sched": sched, "obs": []}
         its = {}
+        # The kernel disables the cyclic collector for the run, but serpent's dumps()/loads() end with gc.enable(): from the first
+        # serpent message on, collections would run at allocation-count dependent (i.e. process-history dependent) moments and
+        # finalise stream iterators / temporary proxies - whose __del__ talks to the daemon - in whatever thread happens to
+        # allocate.  Keep the collector off for the whole scenario; finalisation is an explicit step of the plan ('forget').
+        real_gc_enable = gc.enable
+        gc.enable = lambda: None
+        gc.disable()
         variant = "combined" if plan.get("combined") else ("external-loop" if plan.get("external_loop") else None)
         if variant:
             plain = ctx.violate     # signatures of the combined-daemon / external-loop variants are told apart by their key
@@ -556,6 +564,7 @@ class StreamWorld(World):
         try:
             self._drive(ctx, run, its)
         finally:
+            gc.enable = real_gc_enable
             _Run.cur = None
             for it in its.values():     # _StreamResultIterator.__del__ calls close(): make that a no-op at teardown
                 it.proxy = None
@@ -658,7 +667,9 @@ class StreamWorld(World):
                 elif kind == "close":
                     if op.get("forget"):
                         del its[s]
-                        it = None       # the last reference goes: __del__ -> close() runs right here, in this (foreign) thread
+                        it = None       # the last reference goes: __del__ -> close() runs right here, in this (foreign) thread -
+                        gc.collect()    # or as soon as the collector gets to it (a remote exception leaves the iterator in a
+                        #                 reference cycle: exception -> traceback -> frame of __next__): the collector runs here
                     else:
                         its[s].close()
                     out = ("ok",)
